@@ -736,9 +736,9 @@ theorem modelLength_eq (a : Args) (ht : isTupleFamily a.ptype = true) :
     rcases hd : a.default with _ | d0 <;> simp [ctorDefault, hd, hp] <;>
     (try split) <;> simp_all <;> cases a.length <;> rfl
 
-/-- `ctor_arg_effective`, structural part: the slots the constructor installs are the declared ones -/
-theorem mkCfg_spec (a : Args) (c : Cfg) (d : PyVal)
-    (hmk : mkCfg a = .ok (c, d)) (hwf : WF c) : specCfg a = some c ∧ d = specDefault a := by
+/-- the declared constraints are the slots the constructor installs, provided they are well-formed -/
+theorem specCfg_of_mkCfg (a : Args) (c : Cfg) (d : PyVal) (hmk : mkCfg a = .ok (c, d)) :
+    specCfg a = Option.filter (fun c => decide (WF c)) (some c) ∧ d = specDefault a := by
   unfold mkCfg at hmk
   unfold specCfg
   rw [specDefault_eq]
@@ -748,7 +748,7 @@ theorem mkCfg_spec (a : Args) (c : Cfg) (d : PyVal)
     have hl : specLength a = some 0 := by
       unfold specLength; cases hp : a.ptype <;> simp_all [isTupleFamily]
     rw [hl]
-    exact ⟨by simp only [Option.map, declaredCfg_eq]; exact filter_wf _ hwf, rfl⟩
+    exact ⟨by simp only [Option.map, declaredCfg_eq]; rfl, rfl⟩
   · simp only [ht, if_true] at hmk
     split at hmk
     · simp at hmk
@@ -758,7 +758,39 @@ theorem mkCfg_spec (a : Args) (c : Cfg) (d : PyVal)
       | some n =>
         simp only [hm, Except.ok.injEq, Prod.mk.injEq] at hmk
         obtain ⟨rfl, rfl⟩ := hmk
-        exact ⟨by simp only [Option.map, declaredCfg_eq]; exact filter_wf _ hwf, rfl⟩
+        exact ⟨by simp only [Option.map, declaredCfg_eq], rfl⟩
+
+/-- `ctor_arg_effective`, structural part: the slots the constructor installs are the declared ones -/
+theorem mkCfg_spec (a : Args) (c : Cfg) (d : PyVal)
+    (hmk : mkCfg a = .ok (c, d)) (hwf : WF c) : specCfg a = some c ∧ d = specDefault a := by
+  obtain ⟨h1, h2⟩ := specCfg_of_mkCfg a c d hmk
+  exact ⟨by rw [h1]; exact filter_wf c hwf, h2⟩
+
+/-- a constructor that raises before validating had nothing well-formed to declare -/
+theorem specCfg_of_mkCfg_error (a : Args) (e : ErrKind) (hmk : mkCfg a = .error e) : specCfg a = none := by
+  unfold mkCfg at hmk
+  unfold specCfg
+  cases ht : isTupleFamily a.ptype
+  · simp [ht] at hmk
+  · simp only [ht, if_true] at hmk
+    have hnone : specLength a = none := by
+      split at hmk
+      · rename_i hcond
+        simp only [Bool.and_eq_true] at hcond
+        rw [← modelLength_eq a ht]
+        unfold modelLength
+        have hdn : (ctorDefault a).isNone = true := hcond.2
+        have hla : lengthArg a = none := by
+          cases h : lengthArg a <;> simp_all
+        have htr : truthy (ctorDefault a) = false := by
+          cases hcd : ctorDefault a <;> simp_all [PyVal.isNone, truthy]
+        simp [htr, hla]
+        cases hcd : ctorDefault a <;> simp_all [PyVal.isNone, len?]
+      · rw [← modelLength_eq a ht]
+        cases hm : modelLength a with
+        | none => rfl
+        | some n => simp [hm] at hmk
+    simp [hnone]
 
 theorem selectorValue_eq (c : Cfg) (v : PyVal) : selectorValue c v = selectorValidate c v := by
   unfold selectorValidate selectorValue selectorRejects
@@ -776,5 +808,190 @@ theorem ctorValidate_eq (c : Cfg) (x : Ctx) (d : PyVal) :
     cases d <;> simp [validate, h, listSelectorValidate, PyVal.isNone]
     rename_i xs
     cases hc : c.checkOnSet <;> simp [listItemRejects, selectorRejects, hc]
+
+/-- what `mkCfg` returns -/
+theorem mkCfg_ok_shape (a : Args) (c : Cfg) (d : PyVal) (hmk : mkCfg a = .ok (c, d)) :
+    d = ctorDefault a ∧
+    ((isTupleFamily a.ptype = false ∧ c = baseCfg a) ∨
+     (isTupleFamily a.ptype = true ∧ ∃ n, modelLength a = some n ∧ c = { baseCfg a with length := n })) := by
+  unfold mkCfg at hmk
+  cases ht : isTupleFamily a.ptype
+  · simp only [ht, Bool.false_eq_true, if_false, Except.ok.injEq, Prod.mk.injEq] at hmk
+    exact ⟨hmk.2.symm, Or.inl ⟨rfl, hmk.1.symm⟩⟩
+  · simp only [ht, if_true] at hmk
+    split at hmk
+    · simp at hmk
+    · cases hm : modelLength a with
+      | none => simp [hm] at hmk
+      | some n =>
+        simp only [hm, Except.ok.injEq, Prod.mk.injEq] at hmk
+        exact ⟨hmk.2.symm, Or.inr ⟨rfl, n, rfl, hmk.1.symm⟩⟩
+
+theorem mkCfg_err_kind (a : Args) (e : ErrKind) (h : mkCfg a = .error e) :
+    e = .valueError ∨ e = .typeError := by
+  unfold mkCfg at h
+  split at h
+  · split at h
+    · simp at h; exact Or.inl h.symm
+    · split at h
+      · simp at h; exact Or.inr h.symm
+      · simp at h
+  · simp at h
+
+/-- a Range flavour whose `length` slot is not 2 got it from a non-empty default of that length,
+and that default does not pass the validator -/
+theorem range_bad_length_default (c : Cfg) (x : Ctx) (xs : List PyVal)
+    (hp : c.ptype = .range ∨ c.ptype = .dateRange ∨ c.ptype = .calendarDateRange)
+    (hne : xs ≠ []) (hlen : xs.length = c.length) (h2 : c.length ≠ 2) :
+    validate c x (.tuple xs) ≠ .ok () := by
+  intro h
+  unfold validate at h
+  have hnn : (PyVal.tuple xs).isNone = false := rfl
+  match xs, hne, hlen with
+  | [a], _, _ =>
+    have hnn : (PyVal.tuple [a]).isNone = false := rfl
+    rcases hp with hp | hp | hp <;> simp only [hp, rangeValidate, seq_ok_iff] at h
+    · obtain ⟨hv, _, _, _, ho⟩ := h
+      have ha : a.isNumber = true := by
+        cases hn : c.allowNone <;>
+          simp [numericTupleValue, tupleValue, PyVal.isNone, PyVal.isTuple, PyVal.iter?, hn] at hv <;> exact hv
+      have := isNone_of_isNumber ha
+      cases hn : c.allowNone <;> simp [rangeOrder, hnn, PyVal.iter?, this, hn] at ho
+    · have hv := h.1
+      cases hn : c.allowNone <;> cases hd : a.isDt <;> simp [dateRangeValue, unpack2, PyVal.isNone, hn, hd] at hv
+    · have hv := h.1
+      cases hn : c.allowNone <;> cases hd : (a.isDt && !a.isDatetime) <;>
+        simp [calendarDateRangeValue, unpack2, PyVal.isNone, hn, hd] at hv
+  | [a, b], _, hl => exact h2 (by simpa using hl.symm)
+  | a :: b :: d :: rest, _, _ =>
+    have hnn : (PyVal.tuple (a :: b :: d :: rest)).isNone = false := rfl
+    rcases hp with hp | hp | hp <;> simp only [hp, rangeValidate, seq_ok_iff] at h
+    · obtain ⟨hv, _, _, _, ho⟩ := h
+      have hab : a.isNumber = true ∧ b.isNumber = true := by
+        cases hn : c.allowNone <;>
+          simp [numericTupleValue, tupleValue, PyVal.isNone, PyVal.isTuple, PyVal.iter?, hn] at hv <;>
+          exact ⟨hv.1, hv.2.1⟩
+      have h1 := isNone_of_isNumber hab.1
+      have h2' := isNone_of_isNumber hab.2
+      cases hn : c.allowNone <;> simp [rangeOrder, hnn, PyVal.iter?, unpack2, h1, h2', hn] at ho
+    · have hv := h.1
+      cases hn : c.allowNone <;> simp [dateRangeValue, unpack2, PyVal.isNone, hn] at hv
+    · have hv := h.1
+      cases hn : c.allowNone <;> simp [calendarDateRangeValue, unpack2, PyVal.isNone, hn] at hv
+
+theorem wf_of_not_range (c : Cfg)
+    (h : c.ptype ≠ .range ∧ c.ptype ≠ .dateRange ∧ c.ptype ≠ .calendarDateRange) : WF c := by
+  unfold WF; cases hp : c.ptype <;> simp_all
+
+/-- a non-tuple value never passes a Range flavour (unless it is an allowed `None`) -/
+theorem range_non_tuple (c : Cfg) (x : Ctx) (v : PyVal)
+    (hp : c.ptype = .range ∨ c.ptype = .dateRange ∨ c.ptype = .calendarDateRange)
+    (hn : v.isNone = false) (ht : v.isTuple = false) : validate c x v ≠ .ok () := by
+  intro h
+  unfold validate at h
+  rcases hp with hp | hp | hp <;> simp only [hp, rangeValidate, seq_ok_iff] at h <;> have hv := h.1
+  · cases v <;> cases hn' : c.allowNone <;>
+      simp_all [numericTupleValue, tupleValue, PyVal.isNone, PyVal.isTuple]
+  · cases v <;> cases hn' : c.allowNone <;> simp_all [dateRangeValue, PyVal.isNone, PyVal.isTuple]
+  · cases v <;> cases hn' : c.allowNone <;> simp_all [calendarDateRangeValue, PyVal.isNone, PyVal.isTuple]
+
+/-- An ill-formed Range declaration does not survive its constructor: wrong bound types and a
+zero / non-numeric step make every `_validate` call raise, and a `length` other than 2 can only
+come from a default of that length, which the validator refuses. -/
+theorem ctorValidate_not_wf (a : Args) (c : Cfg) (d : PyVal) (x : Ctx)
+    (hmk : mkCfg a = .ok (c, d)) (hwf : ¬ WF c) : ctorValidate c x d ≠ .ok () := by
+  obtain ⟨hd, hshape⟩ := mkCfg_ok_shape a c d hmk
+  have hrange : c.ptype = .range ∨ c.ptype = .dateRange ∨ c.ptype = .calendarDateRange := by
+    by_cases h1 : c.ptype = .range
+    · exact Or.inl h1
+    · by_cases h2 : c.ptype = .dateRange
+      · exact Or.inr (Or.inl h2)
+      · by_cases h3 : c.ptype = .calendarDateRange
+        · exact Or.inr (Or.inr h3)
+        · exact absurd (wf_of_not_range c ⟨h1, h2, h3⟩) hwf
+  have hcv : ctorValidate c x d = validate c x d := by
+    unfold ctorValidate; rcases hrange with h | h | h <;> simp [h]
+  rw [hcv]
+  rcases hshape with ⟨hnt, hc⟩ | ⟨_, n, hm, hc⟩
+  · exfalso
+    have hpt : c.ptype = a.ptype := by rw [hc]; rfl
+    rw [hpt] at hrange
+    rcases hrange with h | h | h <;> simp [h, isTupleFamily] at hnt
+  · have hpt : c.ptype = a.ptype := by rw [hc]; rfl
+    have hlen : c.length = n := by rw [hc]
+    by_cases hs : StepWF c.step
+    · by_cases hb : BoundsOfType PyVal.isDt c.bounds ∨ c.ptype = .range
+      · -- the bound types and the step are fine: the length is not 2
+        by_cases hbn : c.ptype = .range → BoundsOfType PyVal.isNumber c.bounds
+        · have hn2 : n ≠ 2 := by
+            intro h2
+            apply hwf
+            unfold WF
+            rcases hrange with h | h | h <;> simp only [h] <;> refine ⟨by rw [hlen, h2], ?_, hs⟩
+            · exact hbn h
+            · rcases hb with hb | hb
+              · exact hb
+              · rw [h] at hb; cases hb
+            · rcases hb with hb | hb
+              · exact hb
+              · rw [h] at hb; cases hb
+          -- so it came from a non-empty default of that length
+          have hla : lengthArg a = some 2 := by
+            unfold lengthArg; rw [← hpt]; rcases hrange with h | h | h <;> simp [h]
+          unfold modelLength at hm
+          rw [hla] at hm
+          by_cases hdef : (a.default.isSome && truthy (ctorDefault a)) = true
+          · simp only [hdef, if_true] at hm
+            simp only [Bool.and_eq_true] at hdef
+            rw [← hd] at hm hdef
+            cases d with
+            | tuple xs =>
+              have hne : xs ≠ [] := by rintro rfl; simp [truthy] at hdef
+              have hl : xs.length = c.length := by
+                simp [len?] at hm; rw [hlen]; exact hm
+              exact range_bad_length_default c x xs hrange hne hl (by rw [hlen]; exact hn2)
+            | none => simp [truthy] at hdef
+            | _ => exact range_non_tuple c x _ hrange rfl rfl
+          · simp only [hdef, Bool.false_eq_true, if_false, Option.some.injEq] at hm
+            exact absurd hm.symm hn2
+        · -- a Range with a non-numeric bound
+          intro h
+          have hr : c.ptype = .range := by
+            by_cases hr : c.ptype = .range
+            · exact hr
+            · exact absurd (fun h' => absurd h' hr) hbn
+          unfold validate at h
+          simp only [hr, rangeValidate, seq_ok_iff, rangeBounds] at h
+          have := (boundTypes_ok_iff _ _).1 h.2.2.1.1
+          exact hbn (fun _ => this)
+      · -- a date flavour with a bound that is not a date
+        intro h
+        have hnr : c.ptype ≠ .range := fun h' => hb (Or.inr h')
+        have hnb : ¬ BoundsOfType PyVal.isDt c.bounds := fun h' => hb (Or.inl h')
+        unfold validate at h
+        rcases hrange with hr | hr | hr
+        · exact hnr hr
+        · simp only [hr, rangeValidate, seq_ok_iff, dateRangeBounds, rangeBounds] at h
+          have := (boundTypes_ok_iff _ _).1 h.2.2.1.1
+          exact hnb ((boundsOfType_toDatetime c.bounds).1 this)
+        · simp only [hr, rangeValidate, seq_ok_iff, rangeBounds] at h
+          have := (boundTypes_ok_iff _ _).1 h.2.2.1.1
+          exact hnb this
+    · intro h
+      unfold validate at h
+      rcases hrange with hr | hr | hr <;> simp only [hr, rangeValidate, seq_ok_iff] at h <;>
+        exact hs ((rangeStep_ok_iff c).1 h.2.2.2.1)
+
+/-! ### routes -/
+
+/-- once the value that reaches the setter is known, the outcome is "validate, then store" -/
+theorem assign_cases (r : Route) (c : Cfg) (x : Ctx) (v w : PyVal) (h : routeValue r c v = some w) :
+    (validate c x w = .ok () ∧ assign r c x v = .stored r.target (storedValue c w)) ∨
+    (∃ e, validate c x w = .error e ∧ assign r c x v = .rejected e) := by
+  unfold assign
+  rw [h]
+  rcases hv : validate c x w with e | u
+  · exact Or.inr ⟨e, rfl, by simp [hv]⟩
+  · cases u; exact Or.inl ⟨rfl, by simp [hv]⟩
 
 end ParamVerif.Validate
